@@ -172,6 +172,8 @@ type Exec struct {
 	pathViol      bool
 	curDeferFrame []*frame
 	locks         map[*Val]bool
+	syncMaps      map[*Val]*MapObj
+	initFailure   string
 	frozenCells   map[*Val]bool
 	curH          int
 	viols         *violSet
@@ -226,9 +228,30 @@ func (ex *Exec) initGlobals() {
 	}
 	ex.registry = map[string]Closure{}
 	ex.regOrder = nil
+	ex.initFailure = ""
 	for _, p := range ex.w.initPkgs {
-		ex.call(p.Func("init"), nil, nil)
+		ex.initPkg(p)
 	}
+}
+
+// initPkg runs one package initialiser. A package-level initialiser that needs
+// something the executor cannot do (an unmodelled library call) must not take
+// the whole check down: the failure is remembered, the remaining packages are
+// still initialised (the harness packages register their entry points), and
+// every path then ends as inconclusive with the reason (initFailure).
+func (ex *Exec) initPkg(p *ssa.Package) {
+	defer func() {
+		if r := recover(); r != nil {
+			if pe, ok := r.(pathEnd); ok && pe.kind == "unsupported" {
+				if ex.initFailure == "" {
+					ex.initFailure = "package initialisation of " + p.Pkg.Path() + ": " + pe.msg
+				}
+				return
+			}
+			panic(r)
+		}
+	}()
+	ex.call(p.Func("init"), nil, nil)
 }
 
 // ---------------------------------------------------------------- symbolic variables
